@@ -75,6 +75,12 @@ def check(ctx):
                        construct="%s/loss/fired-handle/%s" % (cls.qual, ".".join(loc)),
                        msg="%s leaves its fired handle in %s; connectionLost cancels it, AlreadyCalled skips the whole clean-up" % (short(ent.func.qual), ".".join(loc)))
                 break
+        for tr, e, loc, tr2, e2 in hd.cancelled_kept():
+            ctx.ob("X-REACH", "%s clean-up is not skipped by a handle cancelled twice (%s)" % (cq, tr.label()), False, where=where(e), function=e.func,
+                   construct="%s/cancelled-handle-kept/%s" % (e.func, ".".join(loc)),
+                   msg="%s cancels the handle in %s and leaves it stored; connectionLost (%s) finds it not None and cancels it again: "
+                       "AlreadyCancelled skips the whole clean-up, nothing pending is failed and the queue and windows survive the clean "
+                       "session" % (tr.label(), ".".join(loc), where(e2)))
         for tr, e, loc, why in hd.none_deref():
             if tr.kind == "LOSS":
                 ctx.ob("X-REACH", "%s no None handle used on the loss path" % cq, False, where=where(e), function=e.func,
